@@ -51,7 +51,8 @@ def seed_value(e):
         return x[1].get("item_path") or x[1].get("item")
     names = []
     expr_mentions(x, lambda y: names.append(y[1].get("item_path")) if (y[0] == "const" and "item_path" in y[1]) else False)
-    return names[0] if names else None
+    # one of several constants (a merge of `match self { Max => NEG_INFINITY, Min => INFINITY }`) is not *a* seed
+    return names[0] if names and len(set(names)) == 1 else None
 
 
 def find(unit, ty_pred=lambda ty: "f64" in ty):
